@@ -496,6 +496,15 @@ def gateFire (s : State) (choice : Option Int) (createOk : Bool) : State × Open
   | .refused => (gateReady s, .refused)
   | .go => openCore (gateReady s) choice createOk
 
+/-- one turn of `tableGameOpen`'s retry loop, 3 s after an attempt that failed with `ErrTableOpenGameFailed` (the engine
+lock is held all the while): nothing if the table shows a hand status by now, otherwise `openGame` again — with its own
+checks (blinds set, break level) but none of the gate's or of `tableGameOpen`'s head -/
+def retryOpen (s : State) (choice : Option Int) (createOk : Bool) : State × OpenOut :=
+  if inHandStatus s.status then (s, .nothing)
+  else if !s.blind.isSet then (s, .refused)
+  else if s.blind.isBreaking then (s, .nothing)
+  else openCore s choice createOk
+
 /-- `settleGame`: result entries `(game index, changed)` -/
 def settle (s : State) (result : List (Nat × Int)) : State × Res :=
   let s1 := { s with status := .settled }
@@ -578,6 +587,7 @@ inductive Event
   | finish (id : Nat)
   | autojoin                                          -- a stale auto-join completion runs (D22)
   | fire (choice : Option Int) (createOk : Bool)      -- the open-game gate fires
+  | retry (choice : Option Int) (createOk : Bool)     -- a turn of the retry loop after a refused open
   | settle (result : List (Nat × Int))               -- the backend closed the hand with this result
   | continue (expired : Bool)                         -- continueGame and its delayed handler
 
@@ -596,6 +606,7 @@ def step (s : State) : Event → State
   | .finish id => (finish s id).1
   | .autojoin => autoJoinStale s
   | .fire ch ok => (gateFire s ch ok).1
+  | .retry ch ok => (retryOpen s ch ok).1
   | .settle r => (settle s r).1
   | .continue e => (continueGame s e).1
 
